@@ -62,6 +62,14 @@ macro_rules! bfv_cases {
             for i in 0..n { expect[to + i] = src.get(from + i); }
             src.copy(from, &mut dst, to, len);
             for i in 0..dl { if dst.get(i) != expect[i] { return Err(format!("after copy dst[{}] = {} expected {}", i, dst.get(i), expect[i])); } }
+            // the same copy between plain slices of words (the slice-backed implementation of BitFieldSliceMut::copy)
+            { use sux::traits::bit_field_slice::BitFieldSliceMut;
+              let sv: Vec<$W> = (0..sl).map(|i| src.get(i)).collect();
+              let mut dv: Vec<$W> = (0..dl).map(|_| (rng.next() as $W) & maxv).collect();
+              let mut ev = dv.clone();
+              for i in 0..n { ev[to + i] = sv[from + i]; }
+              BitFieldSliceMut::copy(&sv, from, &mut dv, to, len);
+              if dv != ev { return Err(format!("slice copy(from {}, to {}, len {}) over lengths {} -> {} differs from the element-wise copy", from, to, len, sl, dl)); } }
             Ok(())
         }
 
